@@ -81,6 +81,21 @@ class Ctx:
         b = self.build(profile)
         r = subprocess.run([b] + [str(a) for a in args], stdout=subprocess.PIPE, stderr=subprocess.PIPE, text=True,
                            timeout=timeout)
+        if r.returncode < 0 or (r.returncode in (134, 139) ) or "unsafe precondition" in r.stderr:
+            # the harness process was killed by a signal (abort / segfault): the code under test corrupted memory or
+            # tripped one of std's undefined-behaviour checks. That is what C03 forbids; for any other property it is
+            # a tool error.
+            if self.prop == "C03":
+                d = "%s/replays/%s" % (VERIF, self.prop)
+                os.makedirs(d, exist_ok=True)
+                p = "%s/%d-crash.log" % (d, int(time.time()))
+                with open(p, "w") as f:
+                    f.write("command: %s %s\nexit: %s\n--- stderr\n%s\n" % (b, " ".join(map(str, args)), r.returncode,
+                                                                            r.stderr[-6000:]))
+                raise Violation(self.prop, "the harness process died (signal / abort) while driving the decoders (%s build): "
+                                           "memory-safety violation in the code under test" % profile, p)
+            log(r.stderr[-2000:])
+            raise ToolError("harness %s was killed (exit %d)" % (" ".join(map(str, args)), r.returncode))
         if r.returncode != 0:
             log(r.stdout[-2000:], r.stderr[-2000:])
             raise ToolError("harness %s exited %d" % (" ".join(map(str, args)), r.returncode))
